@@ -120,6 +120,12 @@ impl Searcher {
             }
         }
 
+        // No iteration completed (e.g. the time budget was already spent): still answer
+        // with a legal move instead of reporting that there is none
+        if best_move.is_none() {
+            best_move = self.move_generator.generate_moves(board).first().copied();
+        }
+
         (best_score, best_move)
     }
 
